@@ -121,6 +121,16 @@ def value_case(draw, tier):
     j = draw(st.integers(1, JMAX_VALUES)) if draw(st.integers(0, 3)) else draw(st.integers(JMAX_VALUES + 1, 820))
     k = draw(st.integers(0, 2**31 - 1))
     special = draw(st.sampled_from(["random", "edge", "origin", "axes", "beyond", "beyond"]))
+    if draw(st.integers(0, 7)) == 0:
+        # radial orders 40 .. 70 (Noll 821 .. 2556), low azimuthal orders preferred (the largest coefficients), at
+        # small radii where the float sum is still well conditioned under the cancellation-aware tolerance
+        n_hi = draw(st.integers(40, 70))
+        m_hi = draw(st.integers(0, 6)) if draw(st.booleans()) else draw(st.integers(0, n_hi))
+        m_hi -= (n_hi - m_hi) % 2
+        m_hi = max(m_hi, n_hi % 2)
+        cand = [jj for jj, nn, mm, _ in _seq(2600) if nn == n_hi and mm == m_hi]
+        j = draw(st.sampled_from(cand))
+        special = "inner"
     return {"j": j, "seed": k, "points": special, "normalize": draw(st.booleans()),
             "shape": list(draw(gen.shape2(1, 9)))}
 
@@ -148,6 +158,8 @@ def values(case, ctx):
         # caller-supplied coordinates are arbitrary: a grid reaching past the unit circle (coordinates normalised to
         # a nominal radius smaller than the aperture); the polynomial is what it is there, only the bound |Z| <= 1 is not
         rho = rho * 1.5
+    elif case["points"] == "inner":
+        rho = rho * 0.3
     elif case["points"] == "origin":
         rho.flat[0] = 0.0
     elif case["points"] == "axes":
